@@ -49,6 +49,8 @@ class Server(BaseComponent):
         bind = (server_ip, port)
         self.server = TCPServer(bind, channel=self.channel, **kwargs)
         self.server.register(self)
+        # the protocols of the connections of this server (per instance)
+        self.__protocols = {}
         self.__receive_event_firewall = receive_event_firewall
         self.__send_event_firewall = send_event_firewall
 
